@@ -25,7 +25,7 @@ from typing import Any, Dict, List, Optional, Sequence, Set, Tuple
 
 from .. import codec as C
 from ..core import AnalysisError, ClassInfo, Ctx, FuncInfo, norm
-from ..fold import Sym
+from ..fold import Abstract,  Sym
 from . import codec_common as K
 
 SD = "_serdes"
@@ -416,6 +416,24 @@ def rule_r5(ctx: Ctx) -> None:
     vals = {ev[1]: ev[2] for ev in _w(wr.events, "w", True) if ev[0] == "EMIT"}
     want_v = {f.data_type.name: (partial[f.name] if f.name in partial else ("DEFAULT-OF", f.data_type.name)) for f in s1.fields_except_padding}
     ctx.check(not wr.raised and vals == want_v and _w(wr.events, "w") == K.spec_structure(s1), SD + "._serialize_composite", "omitted field -> _default_value(field.data_type)", "structure fields omitted from the input are encoded as zero / empty / first variant, in place", ctx.func(SD + "._serialize_composite").where(), {"found": vals})
+    # a field that IS given is written as given, whatever its truth value: a value that tests false (0, 0.0, -0.0, False, '',
+    # [], b'') is a value, not an omission - for most of them the default happens to encode alike, for negative zero it does not
+    class Falsy(Abstract):
+        def __init__(self, name: str):
+            self.name = name
+
+        def __bool__(self) -> bool:
+            return False
+
+        def __repr__(self) -> str:
+            return self.name
+
+    given = {f.name: Falsy("FALSY_" + f.name) for f in s1.fields_except_padding}
+    wr3 = K.only(C.explore_codec(ctx, "_serialize_composite", lambda sink: ([C.AWriter(sink, "w"), s1, dict(given)], {})), "writer of S1 with values that test false")
+    vals3 = {ev[1]: ev[2] for ev in _w(wr3.events, "w", True) if ev[0] == "EMIT"}
+    want3 = {f.data_type.name: given[f.name] for f in s1.fields_except_padding}
+    ctx.count()
+    ctx.check(not wr3.raised and all(vals3.get(k) is v for k, v in want3.items()), SD + "._serialize_composite", "a given field value that tests false is written as given", "only an *omitted* field is replaced by its default: -0.0, 0, False, '' ... are values (the sign of a negative zero is part of the IEEE 754 encoding)", ctx.func(SD + "._serialize_composite").where(), {"written": {k: repr(v) for k, v in vals3.items()}})
     # unknown keys are rejected
     wr2 = K.only(K.writer_runs(ctx, "_serialize_composite", s1, {"nope": 1}), "writer of S1 with an unknown key")
     ctx.check(wr2.raised == "ValueError", SD + "._serialize_composite", "unknown key -> %s" % wr2.raised, "a value naming a field the structure does not have is rejected", ctx.func(SD + "._serialize_composite").where(), nontrivial=False)
